@@ -80,7 +80,7 @@ theorem blockText_head (alts : List (List Tok)) (e : List Nat) : ∃ r, blockTex
 
 /-- the body behind the header's blank: its leading blanks, then the rest -/
 theorem items_lead (items : List Item) (e : List Nat) (j : Nat) (hok : ItemsOk j items e)
-    (hcov : ∀ c ∈ selCmds j items, Covered c) (he : StopEnd e) :
+    (hcov : ∀ c ∈ selCmds j items, LCovered c) (he : StopEnd e) :
     ∃ bl, itemsText items e = bl ++ itemsText (dropLead items) e ∧ bl.length = leadOf items ∧ (∀ x ∈ bl, x = 32 ∨ x = 9) ∧
       (itemsText (dropLead items) e = [] ∨ ∃ c r, itemsText (dropLead items) e = c :: r ∧ Stop c) := by
   cases items with
@@ -88,7 +88,7 @@ theorem items_lead (items : List Item) (e : List Nat) (j : Nat) (hok : ItemsOk j
   | cons it rest =>
     cases it with
     | toks ts =>
-      have hcov' : ∀ c ∈ cmdsOf ts, Covered c := fun c hc => hcov c (by rw [selCmds_cons]; simp [Item.sel, hc])
+      have hcov' : ∀ c ∈ cmdsOf ts, LCovered c := fun c hc => hcov c (by rw [selCmds_cons]; simp [Item.sel, hc])
       obtain ⟨bl, rs, h1, h2, h3, h4⟩ := toks_shape ts (itemsText rest e) hok.1 hcov' hok.2.1
       have hd := (toks_drop_lead ts (itemsText rest e) (leadBlanks ts) (Nat.le_refl _)).1
       have hrs : rs = toksText (ts.drop (leadBlanks ts)) (itemsText rest e) := by
@@ -104,7 +104,7 @@ theorem items_lead (items : List Item) (e : List Nat) (j : Nat) (hok : ItemsOk j
       exact ⟨[], rfl, rfl, fun x hx => by simp at hx, Or.inr ⟨123, r, hr, by simp [Stop]⟩⟩
 
 theorem itemsText_nil_sel (j : Nat) : ∀ (items : List Item) (e : List Nat), itemsText items e = [] →
-    (∀ c ∈ selCmds j items, Covered c) → selCmds j items = [] := by
+    (∀ c ∈ selCmds j items, LCovered c) → selCmds j items = [] := by
   intro items
   induction items with
   | nil => intro _ _ _; rfl
@@ -138,7 +138,7 @@ theorem lineTail_run_items (ids : List Nat) (s : MmlState) (hs : Sane s) (b : Na
     | nil => exact absurd rfl hne
     | cons a _ => exact ⟨a, rfl⟩
   have h0 := hcmds 0 id0 hid0
-  have hcov0 : ∀ c ∈ selCmds 0 items, Covered c := cmdsOk_covered _ _ h0.2
+  have hcov0 : ∀ c ∈ selCmds 0 items, LCovered c := cmdsOk_covered _ _ h0.2
   obtain ⟨bl, h1, h2, h3, h4⟩ := items_lead items e 0 h0.1 hcov0 he.stopEnd
   rw [lineTail_shape s hs b hb bl _ h3 h4 (by rw [hsuf, h1]) hready.2]
   by_cases hnil : itemsText (dropLead items) e = []
